@@ -655,9 +655,99 @@ func addCond(s FactSet, cond ssa.Value, val bool) {
 	}
 }
 
-// FactsAt returns the facts that hold just before instruction in.
+// FactsAt returns the facts that hold just before instruction in (block-entry facts, refined: a short-circuit
+// phi whose remaining candidate edges are narrowed to one by other known facts contributes that edge's facts).
 func (p *Prog) FactsAt(in ssa.Instruction) FactSet {
-	return p.Facts(in.Parent())[in.Block()]
+	fn := in.Parent()
+	base := p.Facts(fn)[in.Block()]
+	if p.refined == nil {
+		p.refined = map[*ssa.BasicBlock]FactSet{}
+	}
+	if r, ok := p.refined[in.Block()]; ok {
+		return r
+	}
+	r := p.RefineFacts(base)
+	p.refined[in.Block()] = r
+	return r
+}
+
+// RefineFacts closes a fact set under: (phi, val) with exactly one incoming edge consistent with the set => the
+// facts of that edge (and the edge's value having value val).
+func (p *Prog) RefineFacts(fs FactSet) FactSet {
+	if fs == nil {
+		return fs
+	}
+	out := FactSet{}
+	for f := range fs {
+		out[f] = true
+	}
+	// go/ssa performs no common-subexpression elimination: `v == ""` evaluated twice yields two values. Pure
+	// comparisons over identical operands are identified by a structural key for contradiction tests.
+	known := func(c ssa.Value, val bool) bool {
+		if out[Fact{c, val}] {
+			return true
+		}
+		k := pureKey(c)
+		if k == "" {
+			return false
+		}
+		for f := range out {
+			if f.Val == val && pureKey(f.Cond) == k {
+				return true
+			}
+		}
+		return false
+	}
+	for iter := 0; iter < 4; iter++ {
+		changed := false
+		for f := range out {
+			phi, ok := f.Cond.(*ssa.Phi)
+			if !ok {
+				continue
+			}
+			efs := p.PhiEdgeFacts(phi)
+			cand, n := -1, 0
+			for i, e := range phi.Edges {
+				if c, isConst := ConstBool(e); isConst && c != f.Val {
+					continue
+				}
+				contradicted := false
+				if _, isConst := e.(*ssa.Const); !isConst && known(e, !f.Val) {
+					contradicted = true
+				}
+				for ef := range efs[i] {
+					if known(ef.Cond, !ef.Val) {
+						contradicted = true
+					}
+				}
+				if contradicted {
+					continue
+				}
+				cand = i
+				n++
+			}
+			if n != 1 {
+				continue
+			}
+			add := FactSet{}
+			for ef := range efs[cand] {
+				add[ef] = true
+			}
+			if _, isConst := phi.Edges[cand].(*ssa.Const); !isConst {
+				addCond(add, phi.Edges[cand], f.Val)
+			}
+			for a := range add {
+				if !out[a] {
+					out[a] = true
+					changed = true
+				}
+			}
+		}
+		if !changed {
+			break
+		}
+	}
+	return out
 }
 
 // HoldsCmp reports whether facts imply a comparison `x op y` identified by pred having value val.
@@ -758,6 +848,13 @@ func BackwardSlice(v ssa.Value, o SliceOpts) map[ssa.Value]bool {
 			}
 			return
 		case *ssa.Call:
+			if _, isBuiltin := x.Call.Value.(*ssa.Builtin); isBuiltin {
+				// len, cap, append, copy, min, max …: pure operators over their arguments
+				for _, a := range x.Call.Args {
+					visit(a)
+				}
+				return
+			}
 			if o.ThroughCall != nil && o.ThroughCall(x) {
 				for _, a := range x.Call.Args {
 					visit(a)
@@ -1097,4 +1194,162 @@ func SameKey(a, b ssa.Value) bool {
 		}
 	}
 	return false
+}
+
+// DominatesModuloFacts: every execution that reaches b has executed a before — either because a dominates b, or
+// because a sits in the exclusive successor S of a branch `if c` in a block H that dominates b, and the facts at b
+// say that c had the value that leads to S (the same SSA value c, so the same evaluation: two `if first {…}`
+// statements on one flag).
+func (p *Prog) DominatesModuloFacts(a, b ssa.Instruction) bool {
+	if Dominates(a, b) {
+		return true
+	}
+	if a.Parent() != b.Parent() {
+		return false
+	}
+	A := a.Block()
+	// climb: A (or a block that A's execution implies, i.e. a dominator of A within the guarded region)
+	for hops := 0; hops < 8 && A != nil; hops++ {
+		if len(A.Preds) == 1 {
+			H := A.Preds[0]
+			if iff, ok := H.Instrs[len(H.Instrs)-1].(*ssa.If); ok && H.Succs[0] != H.Succs[1] && H.Dominates(b.Block()) {
+				val := H.Succs[0] == A
+				for f := range p.FactsAt(b) {
+					if f.Cond == iff.Cond && f.Val == val {
+						return true
+					}
+					// negation wrappers
+					if u, ok := iff.Cond.(*ssa.UnOp); ok && u.Op == token.NOT && f.Cond == u.X && f.Val == !val {
+						return true
+					}
+				}
+			}
+			// a is executed whenever A is entered; A is entered whenever its single predecessor took that edge:
+			// continue upwards only through unconditional edges
+			if len(H.Succs) == 1 {
+				A = H
+				continue
+			}
+		}
+		break
+	}
+	return false
+}
+
+// ResolvePhiAt returns the unique incoming value of phi that is consistent with the facts holding at `at`
+// (edges whose edge facts contradict a fact at `at` are excluded); the phi itself when not unique.
+func (p *Prog) ResolvePhiAt(v ssa.Value, at ssa.Instruction) ssa.Value {
+	for depth := 0; depth < 4; depth++ {
+		phi, ok := v.(*ssa.Phi)
+		if !ok {
+			return v
+		}
+		facts := p.FactsAt(at)
+		efs := p.PhiEdgeFacts(phi)
+		var cand ssa.Value
+		n := 0
+		for i, e := range phi.Edges {
+			contradicted := false
+			for f := range efs[i] {
+				if facts[Fact{f.Cond, !f.Val}] {
+					contradicted = true
+				}
+			}
+			if !contradicted {
+				cand = e
+				n++
+			}
+		}
+		if n != 1 {
+			return v
+		}
+		v = cand
+	}
+	return v
+}
+
+// pureKey returns a structural key for pure boolean expressions over immutable operands (comparisons of SSA values
+// and constants); "" when the expression is not of that kind.
+func pureKey(v ssa.Value) string {
+	b, ok := v.(*ssa.BinOp)
+	if !ok {
+		return ""
+	}
+	switch b.Op {
+	case token.EQL, token.NEQ, token.LSS, token.LEQ, token.GTR, token.GEQ:
+	default:
+		return ""
+	}
+	opnd := func(x ssa.Value) string {
+		if c, ok := x.(*ssa.Const); ok {
+			if c.Value == nil {
+				return "nil:" + c.Type().String()
+			}
+			return "c:" + c.Value.ExactString()
+		}
+		return fmt.Sprintf("%p", x)
+	}
+	return b.Op.String() + "|" + opnd(b.X) + "|" + opnd(b.Y)
+}
+
+// CalleeFacts: the facts (over the callee's own SSA values) that necessarily hold inside the in-module boolean
+// function called by `call` whenever it returns `val`, together with the parameter -> argument substitution.
+// Used to see through small predicate helpers such as `func escapesRoot(p string) bool { return p == ".." || … }`.
+func (p *Prog) CalleeFacts(call *ssa.Call, val bool) (FactSet, map[ssa.Value]ssa.Value) {
+	h := Callee(call)
+	if h == nil || !InModule(h) || h.Blocks == nil || h.Signature.Results().Len() != 1 {
+		return nil, nil
+	}
+	if b, ok := h.Signature.Results().At(0).Type().Underlying().(*types.Basic); !ok || b.Kind() != types.Bool {
+		return nil, nil
+	}
+	subst := map[ssa.Value]ssa.Value{}
+	for i, prm := range h.Params {
+		if i < len(call.Call.Args) {
+			subst[prm] = call.Call.Args[i]
+		}
+	}
+	var acc FactSet
+	for _, ret := range ReturnsOf(h) {
+		rv := RetVals(ret)[0]
+		var fs FactSet
+		if c, isConst := ConstBool(rv); isConst {
+			if c != val {
+				continue
+			}
+			fs = p.FactsAt(ret)
+		} else {
+			tmp := FactSet{}
+			for f := range p.FactsAt(ret) {
+				tmp[f] = true
+			}
+			addCond(tmp, rv, val)
+			fs = p.RefineFacts(tmp)
+		}
+		if acc == nil {
+			acc = FactSet{}
+			for f := range fs {
+				acc[f] = true
+			}
+			continue
+		}
+		for f := range acc {
+			if fs[f] {
+				continue
+			}
+			// structurally equal pure comparison?
+			k, found := pureKey(f.Cond), false
+			if k != "" {
+				for g := range fs {
+					if g.Val == f.Val && pureKey(g.Cond) == k {
+						found = true
+					}
+				}
+			}
+			if !found {
+				delete(acc, f)
+			}
+		}
+	}
+	return acc, subst
 }
